@@ -187,7 +187,7 @@ func oracleIter(bounds [][]byte) Oracle {
 		if v := checkImmIter("workingtree", t.ImmutableTree, m.WorkC, bounds, true); v != nil {
 			return v
 		}
-		for _, ver := range m.Versions() {
+		for _, ver := range m.VersionsDesc() {
 			it, err := t.GetImmutable(ver)
 			if err != nil {
 				return viol("iter", "GetImmutable(%d): %v", ver, err)
